@@ -62,6 +62,11 @@ def run(prog, res):
   _w7_keys(prog, res)
   _w7_random_ensemble(prog, res)
   _w7_crystals(prog, res)
+  from ..rules import divisors
+  divisors.check(prog, res, [prog.function(q) for q in (
+      'premade_lib._get_torsions_and_laplacians',
+      'premade_lib._get_final_crystal_lattices')])
+  res.floor('D3', 2)
   res.floor('X4', 10)
   res.floor('W7', 14)
 
